@@ -590,7 +590,7 @@ func families(tier string) []fw.Family {
 				return document(sizes[g[0]], xforms[g[1]], xforms[g[2]], shapes[g[3]], sts[g[4]])
 			}})
 	}
-	fs = append(fs, selectorFamily())
+	fs = append(fs, selectorFamily(), cascadeFamily())
 	return append(fs, roundTripFamilies(tier)...)
 }
 
